@@ -347,7 +347,7 @@ func runC09(c *Ctx) {
 		}
 		ref := kindsOf(p.Fn(walkers[1].short, walkers[1].name))
 		if len(ref.outer) < 4 || len(ref.inner) < 4 {
-			anchorFail("C09-D6: deconstructValue compares only %d value kinds and %d element kinds (kind switch not recognised)", len(ref.outer), len(ref.inner))
+			c.Undecided("C09-D6: deconstructValue compares only %d value kinds and %d element kinds (kind switch not recognised)", len(ref.outer), len(ref.inner))
 		}
 		for _, w := range walkers {
 			fn := p.Fn(w.short, w.name)
